@@ -114,6 +114,8 @@ def fuzz_main(case):
     except ImportError:
         pass
     c = REG.contracts[case["key"]]
+    if ".c:" in c.qualname:
+        return fuzz_c(c, case, natives)
     modname, _, rest = c.qualname.partition(":")
     module = importlib.import_module(modname)
     natives["$module"] = module
@@ -133,6 +135,15 @@ def fuzz_main(case):
     ptypes = {}
     mod_ast, cls_info, fdef = loader.find_function(c.qualname)
     import ast as _ast
+    all_names = list(names)
+    for vn, vt in (c.ghost.get("varargs") or []):
+        ptypes[vn] = parse_type(vt)
+        all_names.append(vn)
+    for gn, gt in (c.ghost.get("params") or {}).items():
+        ptypes[gn] = parse_type(gt)
+        all_names.append(gn)
+    ptypes["args"] = parse_type("any")
+    ptypes["kwargs"] = parse_type("any")
     for a in fdef.args.posonlyargs + fdef.args.args + fdef.args.kwonlyargs:
         if a.arg in c.params:
             ptypes[a.arg] = c.params[a.arg]
@@ -142,8 +153,16 @@ def fuzz_main(case):
             ptypes[a.arg] = parse_type(_ast.unparse(a.annotation))
     rng = random.Random(case.get("seed", 0))
     gen = Gen(rng, module)
-    gvars = [(gm, gn, ty, invs) for (gm, gn), (ty, invs) in REG.globals.items() if gm == modname and gn in c.globals]
-    saved_globals = {gn: getattr(module, gn, None) for _, gn, _, _ in gvars}
+    custom_gen = None
+    if c.native_gen:
+        ns = {"module": module}
+        ns.update(vars(module))
+        exec(c.native_gen, ns)
+        custom_gen = ns["gen"]
+    gvars = [(gm, gn, ty, invs) for (gm, gn), (ty, invs) in REG.globals.items()
+             if gn in c.globals and (gm == modname or not any(g2 == gn and m2 == modname for (m2, g2) in REG.globals))]
+    gmods = {gm: importlib.import_module(gm) for gm, _, _, _ in gvars}
+    saved_globals = {(gm, gn): getattr(gmods[gm], gn, None) for gm, gn, _, _ in gvars}
     orig = {k: getattr(random, k) for k in ("uniform", "random", "expovariate", "choice", "randint")}
     stats = {"generated": 0, "accepted": 0, "evaluated_clauses": 0}
     deadline = time.time() + case.get("seconds", 10)
@@ -152,15 +171,25 @@ def fuzz_main(case):
         while stats["generated"] < case.get("n", 3000) and time.time() < deadline and found is None:
             stats["generated"] += 1
             for gm, gn, ty, invs in gvars:
-                setattr(module, gn, gen.value(ty))
+                setattr(gmods[gm], gn, gen.value(ty))
             ok = True
             for gm, gn, ty, invs in gvars:
                 for inv in invs:
-                    if native_eval.eval_clause(inv, {gn: getattr(module, gn)}, None, c.model, None, natives, strict=True, tol=c.native_tol) is not True:
+                    genv = {g2: getattr(gmods[m2], g2) for m2, g2, _, _ in gvars}
+                    if native_eval.eval_clause(inv, genv, None, c.model, None, natives, strict=True, tol=c.native_tol) is not True:
                         ok = False
             if not ok:
                 continue
-            env = {n: gen.value(ptypes[n]) for n in names}
+            if custom_gen is not None:
+                try:
+                    env = custom_gen(rng)
+                except Exception:
+                    continue
+                for n in all_names:
+                    if n not in env:
+                        env[n] = gen.value(ptypes[n])
+            else:
+                env = {n: gen.value(ptypes[n]) for n in all_names}
             if any(native_eval.eval_clause(r, env, None, c.model, None, natives, strict=True, tol=c.native_tol) is not True for r in c.requires + c.assume):
                 continue
             stats["accepted"] += 1
@@ -186,11 +215,19 @@ def fuzz_main(case):
             except Exception:
                 return {"stats": stats, "found": None, "skipped": "inputs are not deep-copyable (custom __deepcopy__)"}
             shown = {k: _describe(v) for k, v in env.items()}
-            shown_globals = {gn: _describe(getattr(module, gn)) for _, gn, _, _ in gvars}
+            shown_globals = {gn: _describe(getattr(gmods[gm], gn)) for gm, gn, _, _ in gvars}
             pre_ids = native_eval.collect_ids(env.values())
             raised = None
             try:
-                result = fn(*[env[n] for n in names])
+                call_args = []
+                for n in names:
+                    if n == "args" and (c.ghost.get("varargs")):
+                        call_args.extend(env[vn] for vn, _ in c.ghost["varargs"])
+                    elif n == "kwargs":
+                        continue
+                    else:
+                        call_args.append(env[n])
+                result = fn(*call_args)
             except BaseException as e:  # noqa
                 raised, result = type(e).__name__, None
             finally:
@@ -225,8 +262,62 @@ def fuzz_main(case):
                 found = {"inputs": shown, "globals": shown_globals, "draws": [repr(d) for d in draws],
                          "result": _describe(result), "raised": raised, "violated": violated}
     finally:
-        for gn, v in saved_globals.items():
-            setattr(module, gn, v)
+        for (gm, gn), v in saved_globals.items():
+            setattr(gmods[gm], gn, v)
+    return {"stats": stats, "found": found}
+
+
+def fuzz_c(c, case, natives):
+    """Native search for a C function whose parameters are all scalars (double / uint): the extension is rebuilt from
+    the current source and called through cffi."""
+    from monitors.harness import build_c_extensions, CEXT
+    from pyvc import native_eval
+    from pyvc.cfront import parse_c_file, ctype_of
+    relpath, _, fname = c.qualname.partition(":")
+    funcs = parse_c_file(relpath)[1]
+    fdef = funcs[fname]
+    params = [(p.name, ctype_of(p.type).kind) for p in (fdef.decl.type.args.params if fdef.decl.type.args else [])
+              if getattr(p, "name", None)]
+    if any(k not in ("double", "uint", "int") for _, k in params):
+        return {"stats": {"generated": 0, "accepted": 0}, "found": None, "skipped": "non-scalar C parameters"}
+    modname = None
+    for mn, script in CEXT:
+        if os.path.dirname(script) == os.path.dirname(relpath):
+            modname = mn
+    if modname is None:
+        return {"stats": {"generated": 0, "accepted": 0}, "found": None, "skipped": "no cffi extension for this file"}
+    so = build_c_extensions(os.environ.get("VERIF_REPO", "/repo"))[modname]
+    import importlib.machinery
+    import importlib.util
+    loader_ = importlib.machinery.ExtensionFileLoader(modname.split(".")[-1], so)
+    spec_ = importlib.util.spec_from_file_location(modname.split(".")[-1], so, loader=loader_)
+    mod = importlib.util.module_from_spec(spec_)
+    loader_.exec_module(mod)
+    fn = getattr(mod.lib, fname)
+    rng = random.Random(case.get("seed", 0))
+    gen = Gen(rng, None)
+    stats = {"generated": 0, "accepted": 0, "evaluated_clauses": 0}
+    deadline = time.time() + case.get("seconds", 10)
+    found = None
+    while stats["generated"] < case.get("n", 3000) and time.time() < deadline and found is None:
+        stats["generated"] += 1
+        env = {n: (gen.value(parse_type("float")) if k == "double" else abs(gen.value(parse_type("int")))) for n, k in params}
+        if any(native_eval.eval_clause(r, env, None, c.model, None, natives, strict=True, tol=c.native_tol) is not True
+               for r in c.requires + c.assume):
+            continue
+        stats["accepted"] += 1
+        old_env = dict(env)
+        result = fn(*[env[n] for n, _ in params])
+        env["result"] = result
+        violated = []
+        for e in c.ensures:
+            v = native_eval.eval_clause(e, env, old_env, c.model, None, natives, tol=c.native_tol)
+            stats["evaluated_clauses"] += 1
+            if v is False:
+                violated.append(e)
+        if violated:
+            found = {"inputs": {k: repr(v) for k, v in old_env.items()}, "result": repr(result), "violated": violated,
+                     "globals": {}, "draws": [], "raised": None}
     return {"stats": stats, "found": found}
 
 
